@@ -572,10 +572,23 @@ static sb_error_t sb_i_poly_solve_3d(const sb_poly_t* poly, float rhs, float* ro
         *num_roots = 1;
         roots[0] = -b / (2 * a);
     } else if (d > 0) {
+        /* -b - d or -b + d cancels when 4ac is tiny next to b*b (e.g. a leading
+         * coefficient that nearly vanishes) and the root is lost. Compute the
+         * sum that does not cancel and get the other root from the product of
+         * the roots, c/a; the order of the roots is kept */
+        float q;
+
         *num_roots = 2;
         d = sqrtf(d);
-        roots[0] = (-b - d) / (2 * a);
-        roots[1] = (-b + d) / (2 * a);
+        if (b < 0) {
+            q = (-b + d) / 2;
+            roots[0] = c / q;
+            roots[1] = q / a;
+        } else {
+            q = -(b + d) / 2;
+            roots[0] = q / a;
+            roots[1] = c / q;
+        }
     } else {
         *num_roots = 0;
     }
